@@ -56,6 +56,14 @@ def classify_direction_value(slots, leaf_info_dirs):
     return "normalised", cs
 
 
+def max_degree(slots):
+    from .c11 import degrees
+    acc = []
+    for s_ in slots:
+        degrees(s_, lambda name: 1, acc)
+    return max((abs(d) for d, _ in acc), default=0)
+
+
 def in_order_inputs(cs, input_slots):
     """Is c a subsequence of the input slots (same order), possibly padded with zeros?"""
     pos = -1
@@ -133,6 +141,8 @@ def run(chk):
                         (chk.holds if ok else chk.violated)("R1", sig, "stored vector is the zero vector" + ("" if ok else " regardless of the input"), loc)
                     elif k == "copy":
                         chk.holds("R1", sig, "copies the stored vector of direction %s" % detail, loc)
+                    elif k == "normalised" and max_degree(slots) > 2 and f["sname"] != "Cross":
+                        chk.violated("R1", sig, "an intermediate of the normalisation grows with power %s of the input length: it overflows/underflows although the squared length does not" % max_degree(slots), loc)
                     elif k == "normalised":
                         if f["sname"] == "Cross":
                             chk.holds("R1", sig, "normalisation of a derived vector (cross product)", loc)
